@@ -28,7 +28,7 @@ def hexv(v):
         return "-"
     return v.hex()
 
-DEFAULT_W = dict(put=34, get=12, has=3, size=4, remove=12, flush=12, reopen=0, rebits=0, igc=0, pgc=0, iter=0, crash=0, missize=0, pgcb=0, igcb=0, atflush=0)
+DEFAULT_W = dict(put=34, get=12, has=3, size=4, remove=12, flush=12, reopen=0, rebits=0, igc=0, pgc=0, iter=0, crash=0, missize=0, pgcb=0, igcb=0, pgcl=0, atflush=0)
 
 def history(rng, weights=None, nops=(15, 60), bits_choices=(8, 9, 12, 16), imax_choices=(1, 40, 100, 300, 1 << 30),
             pmax_choices=(1, 60, 100, 300, 1 << 30), imm_p=0.25, nkeys=(4, 11), maxlen=11, keys=None, sweep_p=0.0, first=None, lens=(4, 5, 6, 7), equal_len=False, one_bucket=False):
@@ -96,6 +96,8 @@ def history(rng, weights=None, nops=(15, 60), bits_choices=(8, 9, 12, 16), imax_
             lines.append("iter")
         elif kind == "pgcb":
             lines.append("pgcb %d %d" % (rng.randint(10, 94), rng.choice((0, 0, 1, 1, 2, 3, 5, 8))))
+        elif kind == "pgcl":
+            lines.append("pgcl %d %d" % (rng.randint(10, 94), rng.choice((0, 0, 1, 1, 2, 3))))
         elif kind == "igcb":
             lines.append("igcb %d %d" % (rng.randint(0, 1), rng.choice((0, 1, 1, 2, 3, 5, 8))))
         elif kind == "atflush":
